@@ -19,8 +19,9 @@ CONSTANTS Names,      \* atoms usable alone (and scaled)
           First,      \* atoms allowed in the first slot (the universe is sharded over it; all atoms = no restriction)
           Templates
 
-VARIABLES phase, tpl, ck, bk, mode, slots, subj
-vars == <<phase, tpl, ck, bk, mode, slots, subj>>
+VARIABLES phase, tpl, ck, bk, mode, slots, subj,
+          den       \* Den(subj), computed once when the subject is built (every invariant refers to it)
+vars == <<phase, tpl, ck, bk, mode, slots, subj, den>>
 
 At(n) == AtomTable[n]
 OpLeaf(i) == Leaf(<<i>>, "op")
@@ -60,11 +61,11 @@ Init == /\ phase = "pick" /\ tpl \in Templates
         /\ mode \in {"plain", "T", "I"}
         /\ (tpl \notin {6, 7, 8, 10, 11} => ck = "list" /\ bk = "bdiag")
         /\ (tpl = 8 => ck = "list")
-        /\ slots = <<>> /\ subj = ErrT
+        /\ slots = <<>> /\ subj = ErrT /\ den = ZeroMat(0, 0)
 
 Pick(n) == /\ phase = "pick" /\ Len(slots) < NSlots(tpl) /\ n \in SlotDomain(tpl)
            /\ (Len(slots) = 0 => n \in First)
-           /\ slots' = Append(slots, n) /\ UNCHANGED <<phase, tpl, ck, bk, mode, subj>>
+           /\ slots' = Append(slots, n) /\ UNCHANGED <<phase, tpl, ck, bk, mode, subj, den>>
 
 \* an iterative inverse is only claimed for symmetric positive-definite operators; its transpose is
 \* not supported by the library (excluded by C03's statement)
@@ -82,7 +83,7 @@ Build == /\ phase = "pick" /\ Len(slots) = NSlots(tpl)
                                            /\ (SolverFree(Inverse(t0)) \/ SmallSPD(Den(t0)))
                                         THEN Inverse(t0) ELSE ErrT
             IN /\ WellTyped(t) /\ Admissible(t)
-               /\ subj' = t /\ phase' = "done"
+               /\ subj' = t /\ phase' = "done" /\ den' = TLCEval(Den(t))
          /\ UNCHANGED <<tpl, ck, bk, mode, slots>>
 
 \* a block row / column whose blocks disagree on the shared structure must be refused at construction
@@ -92,13 +93,14 @@ BuildRefused ==
        /\ (bk = "brow" => OutS(x[1]) # OutS(x[2]))
        /\ (bk = "bcol" => InS(x[1]) # InS(x[2]))
        /\ subj' = Assemble(tpl, ck, bk, x) /\ phase' = "refused"
-  /\ UNCHANGED <<tpl, ck, bk, mode, slots>>
+  /\ UNCHANGED <<tpl, ck, bk, mode, slots, den>>
 
 Next == (\E n \in Names \cup PairNames \cup Pool \cup PoolBig \cup Solo : Pick(n)) \/ Build \/ BuildRefused
 
 -----------------------------------------------------------------------------
 Done == phase = "done"
-M == Den(subj)
+M == den
+DenCached == Done => den = Den(subj)
 
 \* C03
 TransposeIsAdjoint ==
